@@ -41,7 +41,7 @@ theorem translateOffset_pos8 {ind : Bool} {row : InstrRow} {c i : Nat} {h : Opti
     (hlo : ind = true ∨ 16 ≤ i) (hi : i ≤ 127) (hraw : raw0 ||| ((if ind then 0x90 else 0x80) + 0x08) < 256) :
     translateOffset ind row (.numeric i h m false) right raw0 =
       .ok { opCode := opv c, postByte := .numeric (raw0 ||| ((if ind then 0x90 else 0x80) + 0x08)) (some 2) .direct false,
-            additional := .numeric i h m false, size := row.indSz + 1, maxSize := row.indSz, needsRes := false } := by
+            additional := .numeric i h m false, size := row.indSz + 1, maxSize := row.indSz + 1, needsRes := false } := by
   have h4 : (!ind && is4Bit i false) = false := by
     rcases hlo with rfl | h16
     · simp
@@ -57,7 +57,7 @@ theorem translateOffset_pos16 {ind : Bool} {row : InstrRow} {c i : Nat} {h : Opt
     (hlo : 128 ≤ i) (hi : i < 65536) (hraw : raw0 ||| ((if ind then 0x90 else 0x80) + 0x09) < 256) :
     translateOffset ind row (.numeric i h m false) right raw0 =
       .ok { opCode := opv c, postByte := .numeric (raw0 ||| ((if ind then 0x90 else 0x80) + 0x09)) (some 2) .direct false,
-            additional := .numeric i (some 4) .extended false, size := row.indSz + 2, maxSize := row.indSz,
+            additional := .numeric i (some 4) .extended false, size := row.indSz + 2, maxSize := row.indSz + 2,
             needsRes := false } := by
   have h4 : (!ind && is4Bit i false) = false := by
     have : ¬ i ≤ 15 := by omega
